@@ -5,7 +5,7 @@
    in-memory index) dropped, then ContinuityStore::new;  `run_ops fixed … base more` = ANY further operations.
    `env_runb` = the environment's part (fresh UUIDs: a thread id chosen for creation is not in the log, a
    session whose counter is not in memory is new).  `fixed` = /repo with the two repairs (bd2ee56, 0b0d2b0). *)
-From RipV Require Import Base.Prelude Model.Crash Proofs.CrashProofs.
+From RipV Require Import Base.Prelude Model.Crash Proofs.CrashProofs Proofs.CrashCacheProofs.
 
 (* whole store replays, every stream 0,1,2,.., whole lines only *)
 Theorem c05_recover_valid : forall (hist : list op) (k : nat) (base : N) (more : list op),
@@ -86,6 +86,17 @@ Theorem c05_dup_after_crash_unfixed_refuted :
 Proof. exact s3_witness. Qed.
 Print Assumptions c05_dup_after_crash_unfixed_refuted.
 
+(* the flush after EVERY frame is needed: were output-chunk frames of session / task streams left in the
+   BufWriter (`v_nf`; seeded change "the closing frame flushes them"), the acknowledged append (frame 4) would be
+   absent from the disk of a process that dies right after the call returned; with `fixed` it is there once *)
+Theorem c05_unflushed_ack_unfixed_refuted :
+  env_runb v_nf init 0 nf_hist = true
+  /\ In 4 (acks (crash v_nf 1000 nf_hist))
+  /\ cfid 4 (frames_of (truth (crash v_nf 1000 nf_hist))) = 0
+  /\ cfid 4 (frames_of (truth (crash fixed 1000 nf_hist))) = 1.
+Proof. exact nf_witness. Qed.
+Print Assumptions c05_unflushed_ack_unfixed_refuted.
+
 (* OPEN (read side of S3, KNOWN_FINDINGS class full_sidecar_wellformed_stale_prefix): "the caches are
    reconciled or ignored" is false of the recovered store — after a crash between the truth-log flush and the
    sidecar append, replay_events serves the well-formed sidecar, a proper prefix of the thread's stream *)
@@ -95,3 +106,37 @@ Theorem c05_caches_reconciled_after_crash_refuted :
   /\ stream 0 (frames_of (truth (crash fixed 43 stale_hist))) = [mkf 0 0 0 300 None; mkf 0 1 4 10 None].
 Proof. exact stale_witness. Qed.
 Print Assumptions c05_caches_reconciled_after_crash_refuted.
+
+(* The positive half of the last clause, for the full sidecar (second invariant SOK: every full sidecar on disk
+   is, at EVERY instruction boundary, a chunk-prefix of the thread's perfect sidecar, or something try_replay
+   refuses now and after any later appended line): what try_replay ACCEPTS after any crash point, restart and any
+   further operations is a PREFIX of the thread's stream in the truth log — stale at worst, never inconsistent
+   (no hole, no foreign or duplicated frame, no frame the log does not hold) *)
+Theorem c05_caches_after_crash : forall (hist : list op) (k : nat) (base : N) (more : list op) (c : N) (evs : list frame),
+  env_runb fixed init 0 hist = true -> nlen hist <= base ->
+  env_runb fixed (crash fixed k hist) base more = true ->
+  try_replay (run_ops fixed (crash fixed k hist) base more) c = Some evs ->
+  exists fs rest, replay_validated (run_ops fixed (crash fixed k hist) base more) = Some fs
+                  /\ stream (2 * c) fs = evs ++ rest.
+Proof. exact caches_after_crash. Qed.
+Print Assumptions c05_caches_after_crash.
+
+(* "reconciled or ignored" for replay_events on the recovered store: it answers (never Err) with a prefix of the
+   thread's stream, and when try_replay refuses the sidecar (absent, torn-and-glued, hole, wrong numbering) the
+   answer is the whole stream read from the truth log (the sidecar is ignored and rebuilt) *)
+Theorem c05_replay_events_after_crash : forall (hist : list op) (k : nat) (base : N) (more : list op) (c : N),
+  env_runb fixed init 0 hist = true -> nlen hist <= base ->
+  env_runb fixed (crash fixed k hist) base more = true ->
+  exists fs evs rest, replay_validated (run_ops fixed (crash fixed k hist) base more) = Some fs
+    /\ snd (replay_events (run_ops fixed (crash fixed k hist) base more) c) = Some evs
+    /\ stream (2 * c) fs = evs ++ rest
+    /\ (try_replay (run_ops fixed (crash fixed k hist) base more) c = None -> rest = []).
+Proof. exact replay_events_after_crash. Qed.
+Print Assumptions c05_replay_events_after_crash.
+
+(* the hypotheses of c05_caches_after_crash are met by the open finding's state: the stale sidecar is accepted *)
+Example c05_caches_after_crash_nonvacuous :
+  env_runb fixed init 0 stale_hist = true /\ nlen stale_hist <= 2 /\ env_runb fixed (crash fixed 43 stale_hist) 2 [] = true
+  /\ try_replay (run_ops fixed (crash fixed 43 stale_hist) 2 []) 0 = Some [mkf 0 0 0 300 None].
+Proof. exact stale_is_prefix. Qed.
+Print Assumptions c05_caches_after_crash_nonvacuous.
